@@ -5,7 +5,7 @@ class's exemption disabled (--strict-class), keeps the smallest shrunk input, an
 changes; the checks themselves never write these files."""
 import json, os, subprocess, glob, shutil, sys
 VERIF = os.path.dirname(os.path.dirname(os.path.abspath(__file__)))
-BIN = os.path.join(VERIF, 'harness/target/release/vcheck')
+BIN = os.environ.get('VCHECK_BIN', os.path.join(VERIF, 'harness/target/release/vcheck'))
 WHAT = {
  "MAP-T1": "Map: one actor updates a key before and after a peer's key remove that saw only the first update; states that went through a merge resurrect / keep the removed data (entry clocks keep one counter per actor)",
  "MAP-T2": "Map<_,MVReg>: a value written after its author saw another key's (or an already removed) update survives a key remove that covered its dot (MVReg::reset_remove drops a value only if its whole context is covered); reads depend on delivery order",
